@@ -721,6 +721,7 @@ func (e *Engine) Run(t *core.Tape, cfg *core.Config, st *core.Stats) (viol *core
 		}
 	}
 	st.Evals++
+	st.D(uint64(core.NewHash().Str(strings.Join(log, "\n"))))
 	if nreads > 0 && nwrites > 0 {
 		st.Distinct(uint64(core.NewHash().Str(strings.Join(log, "\n"))))
 	}
